@@ -988,6 +988,13 @@ def run(prog, rep, tier):
     check_undefined_attrs(prog, rep, ['tenpy/tools/hdf5_io.py'])
     if check_root_memo_and_config(prog, rep) < 2:
         raise AnalysisError('HDF5-memo-save / HDF5-field(Config): anchors not found')
+    rep.rule('HDF5-inherited-loader', 'attributes bound by the __init__ of a class that inherits an '
+             'attribute-wise from_hdf5 are restored by the loader chain')
+    if check_inherited_loader(prog, rep) < 10:
+        raise AnalysisError('HDF5-inherited-loader: fewer than 10 classes with attribute-wise loaders')
+    rep.rule('HDF5-empty-safe', 'single rows of arrays loaded from the file are only read under a '
+             'length condition (legs without blocks)')
+    check_loaded_array_ends(prog, rep)
     from ..flow import check_state_derived_agree
     rep.rule('STATE-derived-agree', '__setstate__ derives attributes by the same expressions as '
              '__init__ where both start from the same inputs')
@@ -1346,4 +1353,140 @@ def check_root_memo_and_config(prog, rep):
                               '`.options`: a converted copy loses nested Config objects (they come '
                               'back as plain dicts, not shared, without name / unused)'
                               % unparse(c.args[0])[:40], c.lineno)
+    return n
+
+
+# ------------------------------------------------------------------ HDF5-inherited-loader
+def _inherited_loader_gaps(prog):
+    ct = prog.classtable()
+    hits = []
+    n = 0
+    for ci in ct.all:
+        if not any('from_hdf5' in c.methods for c in ci.mro) or '__init__' not in ci.methods:
+            continue
+        # chain of from_hdf5 along the MRO
+        chain = []
+        for c in ci.mro:
+            g = c.methods.get('from_hdf5')
+            if g is not None:
+                chain.append((c, g))
+                if 'super()' not in unparse(g):
+                    break
+        if not chain:
+            continue
+        src = ' '.join(unparse(g) for _, g in chain)
+        if '__dict__' in src or 'load_dict' in src or any(
+                isinstance(x, ast.Call) and unparse(x.func) == 'cls' for _, g in chain for x in ast.walk(g)):
+            continue
+        n += 1
+        restored = set()
+        called = set()
+        for c, g in chain:
+            for x in ast.walk(g):
+                if isinstance(x, ast.Assign):
+                    for t in x.targets:
+                        if isinstance(t, ast.Attribute) and isinstance(t.value, ast.Name) and t.value.id in ('obj', 'res'):
+                            restored.add(t.attr)
+                if isinstance(x, ast.Call) and isinstance(x.func, ast.Attribute) and isinstance(x.func.value, ast.Name) and x.func.value.id in ('obj', 'res'):
+                    called.add(x.func.attr)
+                if isinstance(x, ast.Call) and unparse(x.func) == 'setattr' and len(x.args) >= 2 and isinstance(x.args[1], ast.Constant):
+                    restored.add(x.args[1].value)
+        # attributes assigned by methods / property setters run on obj (closure depth 2)
+        todo = list(called) + [a for a in restored]
+        seen = set()
+        while todo:
+            nm = todo.pop()
+            if nm in seen: continue
+            seen.add(nm)
+            for c in ci.mro:
+                f = c.methods.get(nm)
+                if f is None: continue
+                for x in ast.walk(f):
+                    if isinstance(x, ast.Assign):
+                        for t in x.targets:
+                            if is_self_attr(t): restored.add(t.attr)
+                    if isinstance(x, ast.Call) and isinstance(x.func, ast.Attribute) and unparse(x.func.value) == 'self':
+                        todo.append(x.func.attr)
+        init = ci.methods['__init__']
+        own = set()
+        for x in ast.walk(init):
+            if isinstance(x, ast.Assign):
+                for t in x.targets:
+                    if is_self_attr(t): own.add(t.attr)
+        # only if the class that defines from_hdf5 is a proper base (inherited loader)
+        if chain[0][0] is ci:
+            continue
+        base_bound = set()
+        for c in ci.mro[1:]:
+            for f in c.methods.values():
+                for x in ast.walk(f):
+                    if isinstance(x, ast.Assign):
+                        for t in x.targets:
+                            if is_self_attr(t): base_bound.add(t.attr)
+        read_elsewhere = set()
+        for nm, f in ci.methods.items():
+            if nm == '__init__': continue
+            for x in ast.walk(f):
+                if is_self_attr(x) and isinstance(x.ctx, ast.Load): read_elsewhere.add(x.attr)
+        miss = sorted((own - restored - base_bound) & read_elsewhere)
+        if miss:
+            hits.append((ci, miss, chain[0][0].name))
+    return n, hits
+
+
+def check_inherited_loader(prog, rep):
+    """HDF5-inherited-loader: a class that INHERITS from_hdf5 (the loader builds the object with
+    `cls.__new__` and assigns attribute by attribute; loaders going through `cls(..)` or a generic
+    `__dict__` import are not concerned) but whose own __init__ binds further attributes that its
+    other methods read, loads objects without these attributes. Every such attribute is assigned
+    in the loader chain (directly, by setattr, or inside a method / property setter the loader runs
+    on the object: closure over self-calls), or bound by a base class."""
+    n, hits = _inherited_loader_gaps(prog)
+    rep.instance('HDF5-inherited-loader', {'classes_with_attribute_wise_loader': n,
+                                           'classes_with_gaps': [ci.name for ci, _, _ in hits]})
+    for ci, miss, owner in hits:
+        rep.violation('HDF5-inherited-loader', ci.module, ci.name + '.__init__',
+                      'not-restored:' + ','.join(miss),
+                      '%s inherits from_hdf5 of %s, which restores attribute by attribute, but its '
+                      'own __init__ binds %s (read by its other methods): a loaded %s lacks them '
+                      '(AttributeError on use)' % (ci.name, owner, miss, ci.name),
+                      ci.methods['__init__'].lineno)
+    return n
+
+
+# ------------------------------------------------------------------ HDF5-empty-safe
+def check_loaded_array_ends(prog, rep):
+    """HDF5-empty-safe: an array read back from the file may have zero rows (a leg without any
+    block is a valid, saveable object). In LegCharge.from_hdf5 a single row of a loaded array
+    (`X[-1, ..]`, `X[0, ..]`) is only read under a condition on its length / the block number;
+    whole-column slices (`X[:, 1]`) are always safe."""
+    from ..pattern import guards_of
+    m = prog.module('tenpy/linalg/charges.py')
+    n = 0
+    for q in ('LegCharge.from_hdf5', 'LegPipe.from_hdf5'):
+        f = m.func(q)
+        loaded = {st.targets[0].id for st in stmts_of(f) if isinstance(st, ast.Assign) and isinstance(
+            st.targets[0], ast.Name) and isinstance(st.value, ast.Call) and
+            unparse(st.value.func).endswith('.load')}
+        for x in ast.walk(f):
+            if not (isinstance(x, ast.Subscript) and isinstance(x.ctx, ast.Load) and isinstance(
+                    x.value, ast.Name) and x.value.id in loaded):
+                continue
+            first = x.slice.elts[0] if isinstance(x.slice, ast.Tuple) and x.slice.elts else x.slice
+            if isinstance(first, ast.Slice):
+                continue
+            n += 1
+            st = x
+            while not isinstance(st, ast.stmt):
+                st = parent(st)
+            gs = [t for t, p, _ in guards_of(f, st)]
+            ok = any(('block_number' in t or 'len(' in t or '.shape' in t) and
+                     ('> 0' in t or '!= 0' in t or '>= 1' in t) for t in gs)
+            rep.instance('HDF5-empty-safe', {'function': q, 'read': unparse(x)[:40], 'guarded': ok})
+            if not ok:
+                rep.violation('HDF5-empty-safe', m, q, 'row-of-loaded:' + unparse(x)[:30],
+                              '`%s` reads one row of an array loaded from the file without a test '
+                              'that it has rows: a leg without blocks (ind_len 0), which save_hdf5 '
+                              'writes fine, raises IndexError when loaded' % unparse(x)[:40],
+                              x.lineno)
     return n
